@@ -17,10 +17,12 @@ surrounding whitespace, sign, `0x` prefix for base 16, single underscores betwee
 decimal digits, the int/str digit limit), `str(int)`, `uuid.UUID(hex=…)`, `UUID.__str__`.
 
 Character domain on which the correspondence is claimed: ASCII, the `str.isspace()` code points
-(Gen.spaceCodes) and the Unicode decimal digits (category Nd, Gen.ndRuns).  Outside it the model's
-`lowerChar` is the identity whereas Python's `str.lower()` is not (1407 cased non-ASCII characters) —
-those characters are excluded from the correspondence and exercised by the implementation-only
-search.  (`int()`, `strip()`, `replace`, `len` are modelled for every character.)
+(Gen.spaceCodes), the Unicode decimal digits (category Nd, Gen.ndRuns) and the non-ASCII characters
+that lower()/upper()/casefold()/title()/NFKC relate to ASCII letters (Gen.lowerTable, 167 code
+points: long s, Kelvin sign, dotted/dotless i, ligatures, sharp s, fullwidth and circled letters …).
+Outside it the model's `str.lower()` is the identity whereas Python's is not (the other cased
+non-ASCII characters, none of which lowers to or from ASCII) — those characters are excluded from
+the correspondence and exercised by the implementation-only search.  (`int()`, `strip()`, `replace`, `len` are modelled for every character.)
 
 A Python value is a `PyVal`: a `str`, a `bool`, an `int`, or any other object, of which the model only
 knows what the runtime says about it: its `str()` text and the outcome of `int(obj)`.
@@ -54,12 +56,20 @@ def stripChars (p : Char → Bool) (s : List Char) : List Char :=
 /-- `str.strip()` -/
 def pyStrip (s : List Char) : List Char := stripChars isSpace s
 
-/-- `str.lower()` for one character (exact on the character domain of this file) -/
+/-- `str.lower()` for one ASCII character; the identity elsewhere -/
 def lowerChar (c : Char) : Char :=
   if 65 ≤ c.toNat ∧ c.toNat ≤ 90 then Char.ofNat (c.toNat + 32) else c
 
+/-- `str.lower()` for one character: the generated table for the non-ASCII characters that case
+    operations relate to ASCII letters (long s, Kelvin sign, dotted I -> 2 code points, ligatures,
+    fullwidth letters, ...), `lowerChar` otherwise (exact on the character domain of this file) -/
+def lowerChars (c : Char) : List Char :=
+  match Gen.lowerTable.find? (fun e => e.1 == c.toNat) with
+  | some e => e.2.map Char.ofNat
+  | none => [lowerChar c]
+
 /-- `str.lower()` -/
-def pyLower (s : List Char) : List Char := s.map lowerChar
+def pyLower (s : List Char) : List Char := s.flatMap lowerChars
 
 /-- is the int/str conversion limit exceeded by this many digits?  (sys.get_int_max_str_digits()) -/
 def overLimit (digits : Nat) : Bool := decide (0 < Gen.maxStrDigits ∧ Gen.maxStrDigits < digits)
